@@ -1,5 +1,6 @@
 // C20 Exported data read back unchanged; units convert consistently in every build
 #include "../engine/harness.hpp"
+#include <sstream>
 
 #include <cstdlib>
 #include <fstream>
@@ -124,6 +125,45 @@ VCLAUSE(table_roundtrip, 2600, 2500, 50000, "per-column unit factors and a heade
 		VCHECK((int) r[(size_t) i].size() == cols, "row " << i << " has " << r[(size_t) i].size() << " columns, wrote " << cols);
 		for(int j = 0; j < cols; j++)
 			close_enough(c, "table", r[(size_t) i][(size_t) j], t[(size_t) i][(size_t) j], (size_t) i, (size_t) j);
+	}
+	// the file itself ("files written by Export_*"): the header comes first, verbatim; then one line per row holding the values in units of
+	// the column's factor, to six significant digits. (A writer that ignores the units and a reader that ignores them too would round-trip.)
+	{
+		std::ifstream in(f.path);
+		VCHECK(in.good(), "harness: cannot re-open the exported file");
+		std::vector<std::string> lines;
+		std::string ln;
+		while(std::getline(in, ln))
+			lines.push_back(ln);
+		std::vector<std::string> hls;
+		{
+			std::istringstream hs(header);
+			std::string h1;
+			while(std::getline(hs, h1))
+				hls.push_back(h1);
+			if(hl > (int) hls.size())
+				hls.resize((size_t) hl);	 // a header ending in blank lines
+		}
+		VCHECK((int) lines.size() == hl + rows, "the exported file has " << lines.size() << " lines for " << hl << " header lines and " << rows << " rows");
+		for(int i = 0; i < hl; i++)
+			VCHECK(lines[(size_t) i] == hls[(size_t) i], "header line " << i << " in the file is '" << lines[(size_t) i] << "', written '" << hls[(size_t) i] << "'");
+		int probe_rows = std::min(rows, 6);
+		for(int q = 0; q < probe_rows; q++)
+		{
+			int i = q < 3 ? q : rows - 1 - (q - 3);
+			if(i < 0 || i >= rows)
+				continue;
+			std::istringstream ls(lines[(size_t) (hl + i)]);
+			for(int j = 0; j < cols; j++)
+			{
+				double tok = 0;
+				VCHECK((bool) (ls >> tok), "row " << i << " of the file has fewer than " << cols << " numbers: '" << lines[(size_t) (hl + i)] << "'");
+				double expect = t[(size_t) i][(size_t) j] / (with_units ? dims[(size_t) j] : 1.0);
+				VCLOSE(c, "file_token_in_units", tok, expect, 5.1e-6 * std::fabs(expect), "number " << j << " in row " << i << " of the file vs value/unit");
+			}
+			double extra = 0;
+			VCHECK(!(ls >> extra), "row " << i << " of the file has more than " << cols << " numbers");
+		}
 	}
 }
 
@@ -381,6 +421,47 @@ std::vector<Identity> identities()
 	ID("Rydberg", k(Rydberg), 13.605693009 * k(eV), 4);
 	ID("mEarth", k(mEarth), 5.9724e24 * k(kg), 4);
 	ID("G_Newton", k(G_Newton), 1.0 / k(mPlanck) / k(mPlanck), 4);
+	ID("meV", k(meV), 1e-12 * k(GeV), 4);
+	ID("PeV", k(PeV), 1e6 * k(GeV), 4);
+	ID("deg = pi/180", k(deg), M_PI / 180.0, 4);
+	ID("AU = 149597870700 m", k(AU), 149597870700.0 * k(meter), 4);
+	// dynamically initialised (sqrt / pow at start-up in some builds)
+	ID("mPlanck_reduced = mPlanck/sqrt(8 pi)", k(mPlanck_reduced), k(mPlanck) / std::sqrt(8.0 * M_PI), 8);
+	ID("Higgs_VeV = (sqrt(2) G_Fermi)^(-1/2)", k(Higgs_VeV), 1.0 / std::sqrt(std::sqrt(2.0) * k(G_Fermi)), 16);
+	// the physical values behind the remaining constants, to the accuracy any edition of the data tables agrees on: a slipped exponent or a
+	// mistyped digit is a defect, a CODATA update is not (REL(r) = relative tolerance r expressed in units of eps)
+#define REL(r) ((r) / EPS)
+	ID("GeV = 1", k(GeV), 1.0, 0);
+	ID("gram in GeV (c^2/e * 1e-3 * 1e-9)", k(gram), 5.6095886e23, REL(1e-6));
+	ID("cm in 1/GeV (1/(hbar c))", k(cm), 5.0677307e13, REL(1e-6));
+	ID("Elementary_Charge = sqrt(4 pi alpha)", k(Elementary_Charge), std::sqrt(4 * M_PI / 137.035999), REL(1e-6));
+	ID("Coulomb = e / 1.602176634e-19", k(Coulomb), k(Elementary_Charge) / 1.602176634e-19, REL(1e-6));
+	ID("G_Fermi", k(G_Fermi), 1.1663787e-5, REL(1e-5));
+	ID("aEM", k(aEM), 1.0 / 137.035999, REL(1e-6));
+	ID("mPlanck", k(mPlanck), 1.2209e19, REL(1e-3));
+	ID("lbs", k(lbs), 0.45359237 * k(kg), REL(1e-5));
+	ID("acre", k(acre), 4046.8564224 * k(meter) * k(meter), REL(1e-5));
+	ID("pc", k(pc), 3.0856775814913673e16 * k(meter), REL(1e-6));
+	ID("rEarth", k(rEarth), 6371.0 * k(km), REL(2e-3));
+	ID("rSun", k(rSun), 6.957e8 * k(meter), REL(2e-3));
+	ID("mSun", k(mSun), 1.9885e30 * k(kg), REL(1e-3));
+	ID("Bohr_Radius", k(Bohr_Radius), 5.29177210903e-11 * k(meter), REL(1e-6));
+	ID("AMU", k(AMU), 0.93149410242, REL(1e-6));
+	ID("Kelvin (Boltzmann constant)", k(Kelvin), 8.617333262e-14, REL(1e-5));
+	ID("mole", k(mole), 6.02214076e23, REL(1e-6));
+	ID("mProton", k(mProton), 938.27208816e-3, REL(1e-6));
+	ID("mNeutron", k(mNeutron), 939.56542052e-3, REL(1e-6));
+	ID("mNucleon", k(mNucleon), 0.9389, REL(1e-2));
+	ID("mElectron", k(mElectron), 0.51099895e-3, REL(1e-6));
+	ID("mMuon", k(mMuon), 105.6583755e-3, REL(1e-6));
+	ID("mTau", k(mTau), 1.77686, REL(1e-3));
+	ID("mZ", k(mZ), 91.1876, REL(1e-3));
+	ID("mW", k(mW), 80.38, REL(1e-2));
+	ID("mHiggs", k(mHiggs), 125.2, REL(1e-2));
+	ID("mTop", k(mTop), 173.0, REL(2e-2));
+	ID("mBottom", k(mBottom), 4.18, REL(5e-2));
+	ID("mCharm", k(mCharm), 1.27, REL(5e-2));
+#undef REL
 #undef k
 #undef ID
 	return v;
@@ -391,7 +472,7 @@ VCLAUSE(unit_constants, 4, 40, 200, "every configuration (g++/clang++ at -O0/-O2
 {
 	const char* dir = getenv("VERIF_UNITS_DIR");
 	VCHECK(dir != nullptr, "harness: VERIF_UNITS_DIR is not set (vrun.py builds the unit probes)");
-	static const char* cfgs[] = {"g++_O0", "g++_O2", "clang++_O0", "clang++_O2"};
+	static const char* cfgs[] = {"g++_O0", "g++_O2", "clang++_O0", "clang++_O2", "g++_O1_sanitizers"};
 	std::vector<std::pair<std::string, Consts>> builds;
 	for(auto cf : cfgs)
 	{
@@ -428,6 +509,12 @@ VCLAUSE(unit_constants, 4, 40, 200, "every configuration (g++/clang++ at -O0/-O2
 		{
 			auto it = builds[0].second.find(kv.first);
 			VCHECK(it != builds[0].second.end(), "constant " << kv.first << " missing in build " << builds[0].first);
-			VCHECK(same_bits(it->second, kv.second), "constant " << kv.first << " differs between builds: " << it->second << " (" << builds[0].first << ") vs " << kv.second << " (" << builds[bi].first << ")");
+			// the same number in every build: to two units in the last place (a library call folded by one compiler and made at start-up by
+			// another may round differently); bit-identical values are counted
+			VCLOSE(c, "same_value_in_every_build", kv.second, it->second, 2 * EPS * std::fabs(it->second), "constant " << kv.first << " differs between builds " << builds[0].first << " and " << builds[bi].first);
+			if(same_bits(it->second, kv.second))
+				c.cls("constant_bit_identical_across_builds");
+			else
+				c.cls("constant_differs_in_last_bits_across_builds");
 		}
 }
